@@ -1,5 +1,7 @@
 #!/usr/bin/env python3
-"""MANIFEST.setup_cmd: build the Lean library and every model driver from the files on disk (offline)."""
+"""MANIFEST.setup_cmd: build, offline and from the files on disk, the Lean modules and model drivers
+that the registered checks need (every area module lists them in LEAN_TARGETS)."""
+import importlib
 import subprocess
 import sys
 from pathlib import Path
@@ -9,18 +11,20 @@ sys.path.insert(0, str(VERIF / "tools"))
 
 
 def main():
-    try:
-        import gen_tables
-        gen_tables.main([])
-    except ImportError:
-        pass
-    r = subprocess.run(["lake", "build"], cwd=VERIF / "lean")
-    if r.returncode != 0:
-        return r.returncode
-    # all driver executables
-    import re
-    exes = re.findall(r'name\s*=\s*"(drv_[a-z0-9_]+)"', (VERIF / "lean" / "lakefile.toml").read_text())
-    r = subprocess.run(["lake", "build"] + exes, cwd=VERIF / "lean")
+    targets = []
+    for f in sorted((VERIF / "tools" / "areas").glob("*.py")):
+        if f.stem.startswith("_"):
+            continue
+        mod = importlib.import_module("areas." + f.stem)
+        if getattr(mod, "MANIFEST", None):
+            pre = getattr(mod, "setup", None)
+            if pre:
+                pre()                      # e.g. regenerate translated tables
+            for t in getattr(mod, "LEAN_TARGETS", []):
+                if t not in targets:
+                    targets.append(t)
+    print("lake build", " ".join(targets), flush=True)
+    r = subprocess.run(["lake", "build"] + targets, cwd=VERIF / "lean")
     return r.returncode
 
 
